@@ -18,16 +18,18 @@ MIN = "min"
 
 PROPS = {
     "C01": {
+        "exh": [("exh-wrap", FF), ("exh-wrap", MIN)],
         "ops": [("wrap", FF, 8000, 250000), ("wrap", MIN, 3000, 60000), ("wrap9", FF, 1500, 30000)],
         "explanation": "theorem C01_wrap: the text is its paragraphs joined by the line ending, every paragraph is the concatenation of body+gap segments (gaps all spaces), line i is indent+body_i+pen (pen empty or one hyphen), Borrowed at the byte offset of its body when indent and pen are empty, ASCII bodies never end in a space — for any partition oracle and any valid splitter (both proved for the reference instances); the Unicode trailing-space exception clause is checked by L2 only; L2: a backtracking re-parse of every returned line as indent + slice of the text (+ inserted hyphen), slices in order, gaps only spaces/line endings, borrowed lines at their byte offset, no slice ending in a space outside the Unicode/force-break exception",
         "assumptions": ["custom splitters return valid character boundaries"],
     },
     "C02": {
         "ops": [("wrap", FF, 8000, 250000), ("wrap", MIN, 3000, 60000)],
-        "explanation": "fragment-level theorems (greedy lines with >= 2 fragments fit; force-broken pieces are bounded) — text-level assembly in progress; L2: every first-fit line of well-formed text is at most the width wide, or its body is unbreakable under the configured separator/splitter, or it is in a listed known-finding class",
+        "explanation": "text-level theorems C02_lines_fit / C02_break_words / C02_esc_free for every paragraph and both indents (each line measured against the indent it is rendered with), under ParaTop (= not in the listed class CutInsideEscape) and well-formed indents; C02_width_functions discharges the hypotheses on the width function; L2: every first-fit line of well-formed text is at most the width wide, or its body is unbreakable under the configured separator/splitter, or it is in a listed known-finding class",
         "assumptions": ["display width is evaluated with the model's dw on the implementation's lines (dw itself is tied by C10)"],
     },
     "C04": {
+        "release": True,
         "ops": [("wrap", FF, 3000, 100000), ("wrap", MIN, 1500, 30000), ("fill2", FF, 1500, 40000), ("fip", FF, 2000, 50000),
                 ("unfill", FF, 2000, 50000), ("refill", FF, 2000, 50000), ("indent", FF, 1500, 30000), ("dedent", FF, 1500, 30000),
                 ("wc", FF, 1500, 40000), ("dw", FF, 2000, 40000), ("fwa", FF, 1500, 30000), ("fwu", FF, 1500, 30000),
@@ -77,41 +79,47 @@ PROPS = {
         "assumptions": ["the optimal-fit oracle returns at least one line and does not invent words (follows from C06)"],
     },
     "C10": {
+        "exh": [("exh-dw", FF), ("exh-dw", MIN)], "spot": ["dw"],
         "ops": [("dw", FF, 20000, 300000), ("dw", MIN, 6000, 100000)],
         "explanation": "theorems C10_wellformed/additive/insert/le_blen/widths about Model/Esc.v; L1 compares display_width with the extracted model under both feature sets; the per-character table is dumped from the implementation for all 1,112,064 scalars and re-proved (cw c <= utf8_len c) each run",
         "assumptions": ["per-character widths are a table read off the implementation (unicode-width is not modelled further)"],
     },
     "C11": {
+        "exh": [("exh-fwa", FF), ("exh-fwu", FF)], "spot": ["fwa"],
         "ops": [("fwa", FF, 8000, 200000), ("fwu", FF, 8000, 200000), ("fwa", MIN, 3000, 50000)],
         "explanation": "theorems: both separators are Lossless (Unicode: for any oracle answer); ASCII boundaries are exactly the space/non-space transitions; Unicode boundaries are the kept opportunities, each mapped to the first top-level position with that stripped offset; L2 recomputes the expected boundaries from unicode_linebreak's answer",
         "assumptions": ["OracleOK: linebreaks() is strictly increasing, on char boundaries, > 0, last = length — asserted on every generated case"],
     },
     "C12": {
+        "exh": [("exh-ba", FF)],
         "ops": [("hp", FF, 5000, 100000), ("sw", FF, 5000, 100000), ("ba", FF, 6000, 150000), ("bw", FF, 4000, 100000), ("ba", MIN, 2000, 40000), ("sw", MIN, 1500, 30000)],
         "explanation": "theorems C12_split/hyphen_points/break_lossless/bounded/maximal/escape_safe/small_words_unchanged; L2 re-derives every clause on the implementation's pieces",
         "assumptions": ["char::is_alphanumeric is a table dumped from the implementation"],
     },
     "C15": {
         "ops": [("unfill15", FF, 8000, 200000), ("unfill", FF, 8000, 200000), ("unfill15", MIN, 2000, 40000)],
-        "explanation": "theorems: C15_roundtrip (full equality for any partition of the words, i.e. any width and either algorithm), C15_total/structure/line_ending for ALL strings; L2 checks the round trip on fill's real output and the structural half on raw strings",
-        "assumptions": ["the round-trip theorem is about texts of the shape `filled`; that fill produces this shape is carried by the L1 correspondence of fill and by C01"],
+        "explanation": "theorems: C15_unfill_inverts_fill (fill itself, any width, either algorithm via any partition oracle, either line ending, with/without trailing ending), C15_roundtrip (the shape lemma), C15_total/structure/line_ending for ALL strings; L2 checks the round trip on fill's real output and the structural half on raw strings",
+        "assumptions": ["the optimal-fit oracle returns a partition (OfitOK)"],
     },
     "C16": {
         "ops": [("refill16", FF, 8000, 200000), ("refill16", MIN, 2000, 40000)],
-        "explanation": "theorems C16_refill (refill of a filled paragraph = fill of the words with the recovered indents, trailing ending converted) and C16_independent_of_old_width; L2 compares refill(fill(t,o1),o2) with fill(t,o2 with o1's indents) on the implementation",
+        "explanation": "theorems C16_refill_of_fill (refill(fill(t,o1)+tail, o2) = fill(t, o2 with o1 indents)+converted tail when the first filling has >= 2 lines), C16_refill, C16_independent_of_old_width; L2 compares refill(fill(t,o1),o2) with fill(t,o2 with o1's indents) on the implementation",
         "assumptions": ["as C15"],
     },
     "C17": {
+        "exh": [("exh-fip", FF)],
         "ops": [("fip", FF, 10000, 250000), ("fip", MIN, 3000, 50000)],
         "explanation": "theorems C17_total/shape/agrees_with_wrap; L2 checks length, the only-space-to-newline difference and equality with wrap (documented options) on the implementation",
         "assumptions": ["cw c <= utf8_len c (C10_widths)"],
     },
     "C18": {
+        "exh": [("exh-dedent", FF)], "spot": ["dedent"],
         "ops": [("dedent", FF, 8000, 200000), ("dedent18", FF, 8000, 200000)],
         "explanation": "theorems C18_margin/margin_is_longest/spec/idempotent (outside the known-finding class)/dedent_indent; L2 compares dedent with the declarative spec and checks idempotence and dedent-after-indent on the implementation",
         "assumptions": [],
     },
     "C19": {
+        "exh": [("exh-indent", FF)], "spot": ["indent"],
         "ops": [("indent", FF, 10000, 250000)],
         "explanation": "theorems C19_spec/line_structure/empty_prefix; L2 compares with the declarative spec",
         "assumptions": [],
